@@ -16,7 +16,7 @@ import sys
 import time
 
 VERIF = os.path.dirname(os.path.dirname(os.path.abspath(__file__)))
-REPO = '/repo'
+REPO = os.environ.get('SEED_REPO', '/repo')     # validation may use a scratch worktree; detection uses /repo unless told otherwise
 PY = '/venv/bin/python'
 
 
@@ -25,8 +25,8 @@ def sh(cmd, **kw):
 
 
 def clean():
-    sh('git -C /repo checkout -- .')
-    assert sh('git -C /repo status --porcelain --untracked-files=no').stdout.strip() == '', 'repo not clean'
+    sh('git -C %s checkout -- .' % REPO)
+    assert sh('git -C %s status --porcelain --untracked-files=no' % REPO).stdout.strip() == '', 'repo not clean'
 
 
 def load_meta(d):
@@ -49,7 +49,7 @@ def demo(d):
 def tests():
     for attempt in range(3):
         # private network namespace: the MLLP tests bind fixed ports
-        r = sh("unshare -n sh -c 'ip link set lo up; cd /repo && %s -m pytest -q -p no:cacheprovider --timeout=900 2>&1 | tail -3'" % PY, timeout=900)
+        r = sh("unshare -n sh -c 'ip link set lo up; cd %s && %s -m pytest -q -p no:cacheprovider --timeout=900 2>&1 | tail -3'" % (REPO, PY), timeout=900)
         if 'Address already in use' not in r.stdout and ' error' not in r.stdout:
             break
         time.sleep(5)
@@ -63,7 +63,7 @@ def validate(sid):
     meta = load_meta(d)
     clean()
     rc0, out0 = demo(d)
-    ap = sh('git -C /repo apply %s' % os.path.join(d, 'patch.diff'))
+    ap = sh('git -C %s apply %s' % (REPO, os.path.join(d, 'patch.diff')))
     if ap.returncode != 0:
         print(sid, 'PATCH DOES NOT APPLY', ap.stderr[-300:])
         clean()
@@ -98,12 +98,12 @@ def detect(sid, tier, only, prop=None):
     meta = load_meta(d)
     prop = prop or sid.split('-')[0]
     clean()
-    ap = sh('git -C /repo apply %s' % os.path.join(d, 'patch.diff'))
+    ap = sh('git -C %s apply %s' % (REPO, os.path.join(d, 'patch.diff')))
     assert ap.returncode == 0, ap.stderr
     t0 = time.time()
     try:
         cmd = '%s/check %s --tier %s --no-evidence' % (VERIF, prop, tier) + (' --only %s' % only if only else '')
-        r = sh(cmd, timeout=7200, cwd=VERIF)
+        r = sh(cmd, timeout=7200, cwd=VERIF, env=dict(os.environ, VP_REPO=REPO))
     finally:
         clean()
     viol = [ln for ln in r.stdout.splitlines() if ln.startswith('VIOLATION')]
